@@ -87,6 +87,17 @@ def checkC14 (toks : List String) (res : String) : Option Verdict := do
     let cls := if cls.isEmpty && tcLossyShort T e x rep then "C14.lossy_rescaling_of_short_expansion" else cls
     some { model := m, spec := spec, cls := cls, branch := br, nontrivial := spec.isSome }
   | ["cap", _] => some { model := m, spec := none, branch := br, nontrivial := false }
+  | ["fixb", _, base, v] =>
+    let base ← base.toNat?; let v ← v.toInt?
+    let spec : Option Bool := match res.splitOn ":" with
+      | n :: rest@(_ :: _) =>
+        let arr := tcDecChars (":".intercalate rest).toList
+        match n.toNat? with
+        | some n => some (tcIntDenotes base v (arr.take n) && (arr.drop n).all (· == Char.ofNat 0) && decide (arr.length > n))
+        | none => none
+      | _ => none    -- no text produced: C13's concern
+    let mn := tag == "most_negative_integer"
+    some { model := m, spec := if mn then some false else spec, cls := if mn then cls else "", branch := br, nontrivial := spec.isSome }
   | ["fix", t, v] =>
     let v ← v.toInt?
     let k ← parseTcTyK t
